@@ -110,4 +110,96 @@ example : ∃ e0 e r, eagerBaseD exBase = .ok e0 ∧ eagerD exStages e0 = .ok (s
     e.cells = [.int 1, .int 3] ∧ e.names = some ["a", "c"] ∧ r.iter = .ok [.int 1, .int 3] :=
   ⟨_, _, _, rfl, rfl, rfl, rfl, rfl, rfl⟩
 
+/-! ## sparse rows
+
+Proved for pipelines whose base row is a dict or a LazySparse without header map (`simpleBase`) and which contain
+no effective EncodeCatRows stage (`noEnccat`).  Not proved (model + correspondence check only): LazySparse rows
+with a header map / ArffReader's sparse rows as base (they additionally answer to their raw integer keys, see
+`sparse_get_counterexample`, so the two-sided by-key statement below is false for them), and EncodeCatRows on
+dicts (its result depends on the order of the dict, which `items()` of a lazy row does not fix).
+
+Sets (`keys()`, iteration) are compared as sets and `items()` / `copy()` as finite maps (`Obs.agree`). -/
+
+/- theorem sparse_get_full: for every base, `row[k]` is `e.d[k]` and raises KeyError exactly when `k ∉ e.d`.
+   False for header-mapped LazySparse bases (`sparse_get_counterexample`). -/
+
+theorem sparse_defined_partial (b : SBase) (hb : simpleBase b) (stages : List Stage) (hs : noEnccat stages) (e0 e : EagerS)
+    (he0 : eagerBaseS b = .ok e0) (he : eagerS stages e0 = .ok (some e)) :
+    ∃ r, buildS stages (baseS b) = .ok (some r) ∧ RefS r e :=
+  let ⟨r, hr, href, _⟩ := (sparse_refines b hb stages hs e0 he0).1 e he; ⟨r, hr, href⟩
+
+theorem sparse_row_dropped_partial (b : SBase) (hb : simpleBase b) (stages : List Stage) (hs : noEnccat stages) (e0 : EagerS)
+    (he0 : eagerBaseS b = .ok e0) (he : eagerS stages e0 = .ok none) :
+    buildS stages (baseS b) = .ok none := (sparse_refines b hb stages hs e0 he0).2 he
+
+/-- by key (header name or raw key): `row[k]` is the eager dict's entry, KeyError exactly when it has none -/
+theorem sparse_get_partial (b : SBase) (hb : simpleBase b) (stages : List Stage) (hs : noEnccat stages) (e0 e : EagerS) (r : SRow)
+    (he0 : eagerBaseS b = .ok e0) (he : eagerS stages e0 = .ok (some e))
+    (hr : buildS stages (baseS b) = .ok (some r)) (k : Key) :
+    r.get k = optRes (dget e.d k) := (sparse_ref' b hb stages hs e0 e r he0 he hr).1.get k
+
+/-- `items()` (and `copy()`): no key twice, and as a finite map it is the eager dict -/
+theorem items_eq_partial (b : SBase) (hb : simpleBase b) (stages : List Stage) (hs : noEnccat stages) (e0 e : EagerS) (r : SRow)
+    (he0 : eagerBaseS b = .ok e0) (he : eagerS stages e0 = .ok (some e))
+    (hr : buildS stages (baseS b) = .ok (some r)) :
+    ∃ its, r.items = .ok its ∧ (its.map (·.1)).Nodup ∧ ∀ k, dget its k = dget e.d k :=
+  (sparse_ref' b hb stages hs e0 e r he0 he hr).1.items
+
+/-- `keys()` / iteration: exactly the keys of the eager dict, each once -/
+theorem sparse_keys_eq_partial (b : SBase) (hb : simpleBase b) (stages : List Stage) (hs : noEnccat stages) (e0 e : EagerS) (r : SRow)
+    (he0 : eagerBaseS b = .ok e0) (he : eagerS stages e0 = .ok (some e))
+    (hr : buildS stages (baseS b) = .ok (some r)) :
+    ∃ ks, r.keys = .ok ks ∧ ks.Nodup ∧ ∀ k, k ∈ ks ↔ (dget e.d k).isSome :=
+  (sparse_ref' b hb stages hs e0 e r he0 he hr).1.keys
+
+/-- by length -/
+theorem sparse_len_eq_partial (b : SBase) (hb : simpleBase b) (stages : List Stage) (hs : noEnccat stages) (e0 e : EagerS) (r : SRow)
+    (he0 : eagerBaseS b = .ok e0) (he : eagerS stages e0 = .ok (some e))
+    (hr : buildS stages (baseS b) = .ok (some r)) :
+    r.len = .ok e.d.length := (sparse_ref' b hb stages hs e0 e r he0 he hr).1.len
+
+/-- every access other than feats/label/tipe for which the eager dict defines a result agrees with it
+(by key, keys, iteration, items, copy, len, `==` against a dict) -/
+theorem sparse_observations_partial (b : SBase) (hb : simpleBase b) (stages : List Stage) (hs : noEnccat stages) (e0 e : EagerS) (r : SRow)
+    (he0 : eagerBaseS b = .ok e0) (he : eagerS stages e0 = .ok (some e))
+    (hr : buildS stages (baseS b) = .ok (some r)) (a : Acc)
+    (hna : match a with | .label => False | .tipe => False | .feats _ => False | _ => True)
+    (hdef : eagerObsS e a ≠ .undef) :
+    (obsS r a).agree (eagerObsS e a) :=
+  let h := sparse_ref' b hb stages hs e0 e r he0 he hr; obsS_of_ref h.1 h.2 a hna hdef
+
+/-- feats / label / tipe when LabelRows is the last stage (an absent label entry is 0) -/
+theorem feats_label_sparse_partial (b : SBase) (hb : simpleBase b) (stages : List Stage) (hs : noEnccat stages)
+    (k : Key) (t : Option String) (e0 e : EagerS)
+    (he0 : eagerBaseS b = .ok e0) (he : eagerS (stages ++ [.label k t]) e0 = .ok (some e)) :
+    ∃ r f ef v, buildS (stages ++ [.label k t]) (baseS b) = .ok (some r) ∧
+      r.feats = .ok f ∧ e.feats = some ef ∧ RefS f ef ∧
+      r.labelVal = .ok v ∧ e.labelVal = some v ∧ r.tipe = .ok t ∧ e.lab.map (·.2) = some t :=
+  feats_label_sparse' b hb stages hs k t e0 e he0 he
+
+/-- "LabelRows last" is necessary for sparse rows too: `{0:1, 1:2}`, label key 1, then `EncodeRows({0:+1, 1:+1})`:
+the row reads `{0:2, 1:3}` but its label is still 2 (eager: 3)  (recorded C13-F9) -/
+theorem feats_label_sparse_counterexample :
+    ∃ r e, buildS cexStagesS (baseS cexBaseS) = .ok (some r) ∧
+      (match eagerBaseS cexBaseS with | .ok e0 => eagerS cexStagesS e0 | .error er => .error er) = .ok (some e) ∧
+      r.items = .ok e.d ∧
+      r.labelVal = .ok (.int 2) ∧ e.labelVal = some (.int 3) := feats_label_sparse_cex'
+
+/-- `simpleBase` is necessary for the two-sided by-key statement: `LazySparse({0:7}, fwd={'a':0}, inv={0:'a'})`
+answers `row['a'] == 7` like the eager dict `{'a':7}`, but also `row[0] == 7` where the eager dict raises KeyError -/
+theorem sparse_get_counterexample :
+    ∃ e, eagerBaseS cexLeakBase = .ok e ∧ dget e.d (.pos 0) = none ∧ dget e.d (.name "a") = some (.int 7) ∧
+      (baseS cexLeakBase).get (.pos 0) = .ok (.int 7) ∧ (baseS cexLeakBase).get (.name "a") = .ok (.int 7) :=
+  sparse_get_leak_cex'
+
+/-- access order (sparse): any history of accesses on one row object yields what fresh rows yield -/
+theorem access_order_irrelevant_sparse (r : SRow) (as : List Acc) : runS r as = as.map (obsS r) := runS_eq_map r as
+
+/-- the sparse hypotheses are satisfiable: `LazySparse(loader of {'a':'1','b':'2'})`, `EncodeRows({'a':int,'c':str})`,
+drop `b`, label `y` (absent, so 0): the eager dict is `{'a':1,'c':'0','y':0}` -/
+example : simpleBase exBaseS ∧ noEnccat exStagesS ∧
+    ∃ e0 e r, eagerBaseS exBaseS = .ok e0 ∧ eagerS exStagesS e0 = .ok (some e) ∧ buildS exStagesS (baseS exBaseS) = .ok (some r) ∧
+      e.d = [(.name "a", .int 1), (.name "c", .str "0"), (.name "y", .int 0)] :=
+  ⟨rfl, trivial, _, _, _, rfl, rfl, rfl, rfl⟩
+
 end Coba.C13
